@@ -417,7 +417,18 @@ def check_outer_regions(ctx):
         g = c.args[0].generators[0]
         e = c.args[0].elt
         strict = None
-        if isinstance(e, ast.Compare) and len(e.ops) == 1 and all(isinstance(x, ast.Call) and U(x.func) == 'set' for x in [e.left, e.comparators[0]]):
+        setlists = {a_.targets[0].id for a_ in ast.walk(fi.node) if isinstance(a_, ast.Assign) and len(a_.targets) == 1
+                    and isinstance(a_.targets[0], ast.Name) and isinstance(a_.value, (ast.ListComp, ast.GeneratorExp))
+                    and isinstance(a_.value.elt, ast.Call) and U(a_.value.elt.func) in ('set', 'frozenset')}
+
+        def is_set(x):
+            # set(..) itself, or a name that ranges over a list of sets built for the purpose
+            if isinstance(x, ast.Call) and U(x.func) in ('set', 'frozenset'):
+                return True
+            return isinstance(x, ast.Name) and bool(setlists) and (U(g.iter) in setlists or any(U(g.iter) == s_ for s_ in setlists)
+                                                                       or x.id != U(g.target))
+        if isinstance(e, ast.Compare) and len(e.ops) == 1 and all(is_set(x) for x in [e.left, e.comparators[0]]) \
+                and (any(isinstance(x, ast.Call) for x in [e.left, e.comparators[0]]) or U(g.iter) in setlists):
             if isinstance(e.ops[0], ast.Lt):
                 strict = True
             elif isinstance(e.ops[0], ast.LtE):
